@@ -509,7 +509,7 @@ def check_option_carrying_params(ctx):
                             arg = k.value
                     ev = arg is not None and (
                         (isinstance(arg, ast.Call) and call_name(arg) == 'get_option' and arg.args and isinstance(arg.args[0], ast.Constant) and arg.args[0].value == p)
-                        or (isinstance(arg, ast.Name) and optlocals.get(arg.id) == p) or (isinstance(arg, ast.Name) and arg.id == p and p in names))
+                        or (isinstance(arg, ast.Name) and optlocals.get(arg.id) == p))
                     if ev:
                         carry[(cal.key, p)] = fi.key
                     sites.append((fi, c, cal, p, arg, has_opts or p in names, star))
@@ -518,8 +518,13 @@ def check_option_carrying_params(ctx):
     while changed:
         changed = False
         for fi, c, cal, p, arg, in_scope, star in sites:
-            if (cal.key, p) in carry and isinstance(arg, ast.Name) and arg.id == p and p in fi.params() and (fi.key, p) not in carry:
+            own = isinstance(arg, ast.Name) and arg.id == p and p in fi.params()
+            if (cal.key, p) in carry and own and (fi.key, p) not in carry:
                 carry[(fi.key, p)] = f'{cal.key} (forwarded)'
+                changed = True
+            # ... and a carrier that hands its parameter on makes the receiving parameter a carrier (worker split off a carrier)
+            if (fi.key, p) in carry and own and (cal.key, p) not in carry:
+                carry[(cal.key, p)] = f'{fi.key} (handed on)'
                 changed = True
     if len(carry) < 5:
         raise AnalysisError(f'only {len(carry)} option-carrying helper parameters found')
